@@ -1,6 +1,6 @@
 (** C17 — correspondence ([agree]: model output = implementation output) and the property read on the
     implementation's own outputs ([holds]). *)
-From V Require Import Base.Util C17.Model.
+From V Require Import Base.Util C17.Model C17.Spec.
 
 (* ---------- boolean equalities ---------- *)
 Definition pair_eqb {A B} (ea : A -> A -> bool) (eb : B -> B -> bool) (x y : A * B) : bool :=
@@ -45,24 +45,37 @@ Definition res_eqb {E A} (ee : E -> E -> bool) (ea : A -> A -> bool) (x y : res 
   end.
 
 (** a model declaration matches an observed one; the body is compared where the model predicts it *)
-Definition decl_agree (m i : decl) : bool :=
-  N.eqb (dc_section m) (dc_section i) && str_eqb (dc_local m) (dc_local i) && str_eqb (dc_schema m) (dc_schema i)
-  && match dc_body m, dc_body i with
-     | Some b, Some b' => str_eqb b b'
-     | Some _, None => false
-     | None, _ => true
+(** what the harness records for one declaration: the text of the right-hand side if there is one *)
+Record odecl := mk_odecl { od_section : N; od_local : str; od_schema : str; od_body : option str }.
+
+Definition decl_agree (m : decl) (i : odecl) : bool :=
+  N.eqb (dc_section m) (od_section i) && str_eqb (dc_local m) (od_local i) && str_eqb (dc_schema m) (od_schema i)
+  && match dc_body m, od_body i with
+     | BText b, Some b' => str_eqb b b'
+     | BUnion l, Some b' => str_eqb (union_text l) b'
+     | BNone, _ => true
+     | _, None => false
      end.
+
+Fixpoint list_agree {A B} (f : A -> B -> bool) (a : list A) (b : list B) : bool :=
+  match a, b with
+  | [], [] => true
+  | x :: a', y :: b' => f x y && list_agree f a' b'
+  | _, _ => false
+  end.
 
 (* ---------- cases ---------- *)
 Definition obs_type := (str * (str * N * list str))%type.     (* key, (def name, tag, interfaces) *)
+
+Inductive ogen_result := OResolveError (e : xerr) | OPrintError (e : perr) | OOk (decls : list odecl).
 
 Inductive case :=
 | CSchema (defs : list adef) (fid : N) (probes : list str)
           (it0 : list obs_type) (get0 : list (option N))
           (it1 : list obs_type) (get1 : list (option N)) (variants : N)
 | CResolve (its : list item) (r : res xerr (list item))
-| CSkeleton (cfg : list (str * scfg)) (doc : list item) (r : res perr (list decl))
-| CGen (cfg : list (str * scfg)) (files : list (list item)) (builtins : list item) (r : gen_result)
+| CSkeleton (cfg : list (str * scfg)) (doc : list item) (r : res perr (list odecl))
+| CGen (cfg : list (str * scfg)) (files : list (list item)) (builtins : list item) (r : ogen_result)
 | CDet (how : N) (digests : list N)
 | CPerm (v1 v2 : str) (c1 c2 : list (str * N))
 | CLibCli (lib_ok cli_ok : bool) (d1 d2 : list N).
@@ -114,16 +127,20 @@ Definition agree_schema defs fid probes it0 get0 it1 get1 (variants : N) : bool 
             end) (combine probes get1)
        && N.eqb (N.of_nat (length probes)) (N.of_nat (length get1)).
 
-Definition decls_agree (m i : list decl) : bool := list_eqb decl_agree m i.
+Definition decls_agree (m : list decl) (i : list odecl) : bool := list_agree decl_agree m i.
 
-Definition skeleton_agree (m : res perr (list decl)) (i : res perr (list decl)) : bool :=
-  res_eqb perr_eqb decls_agree m i.
-
-Definition gen_agree (m i : gen_result) : bool :=
+Definition skeleton_agree (m : res perr (list decl)) (i : res perr (list odecl)) : bool :=
   match m, i with
-  | GResolveError a, GResolveError b => xerr_eqb a b
-  | GPrintError a, GPrintError b => perr_eqb a b
-  | GOk a, GOk b => decls_agree a b
+  | Ok a, Ok b => decls_agree a b
+  | Err a, Err b => perr_eqb a b
+  | _, _ => false
+  end.
+
+Definition gen_agree (m : gen_result) (i : ogen_result) : bool :=
+  match m, i with
+  | GResolveError a, OResolveError b => xerr_eqb a b
+  | GPrintError a, OPrintError b => perr_eqb a b
+  | GOk a, OOk b => decls_agree a b
   | _, _ => false
   end.
 
@@ -169,6 +186,7 @@ Fixpoint str_nodup (l : list str) : bool :=
 
 Definition holds_resolve (its : list item) (r : res xerr (list item)) : bool :=
   let ins := defs_of its in
+  N.eqb (vclass r) (expected_class its) &&
   match r with
   | Ok out =>
       let outs := defs_of out in
@@ -201,25 +219,25 @@ Fixpoint split_bar (t : str) (cur : str) : list str :=
 Definition same_set (a b : list str) : bool :=
   forallb (fun x => existsb (str_eqb x) b) a && forallb (fun x => existsb (str_eqb x) a) b.
 
-Definition holds_skeleton (doc : list item) (r : res perr (list decl)) : bool :=
+Definition holds_skeleton (doc : list item) (r : res perr (list odecl)) : bool :=
   match r with
   | Err _ => true
   | Ok decls =>
       let tds := type_defs doc in
       (* representatives: every type definition once, in document order *)
-      strs_eqb (map dc_schema (filter (fun d => N.eqb (dc_section d) 4) decls)) (map d_name tds)
+      strs_eqb (map od_schema (filter (fun d => N.eqb (od_section d) 4) decls)) (map d_name tds)
       (* local names: the schema name or its __tmp_ form, and one local name per schema name *)
-      && forallb (fun d => str_eqb (dc_local d) (dc_schema d) || str_eqb (dc_local d) (tmp_prefix ++ dc_schema d)) decls
-      && forallb (fun d => forallb (fun d' => negb (str_eqb (dc_schema d) (dc_schema d')) || str_eqb (dc_local d) (dc_local d')) decls) decls
+      && forallb (fun d => str_eqb (od_local d) (od_schema d) || str_eqb (od_local d) (tmp_prefix ++ od_schema d)) decls
+      && forallb (fun d => forallb (fun d' => negb (str_eqb (od_schema d) (od_schema d')) || str_eqb (od_local d) (od_local d')) decls) decls
       (* an interface is the union of exactly the objects that list it *)
       && forallb (fun d =>
-           match find (fun t => str_eqb (d_name t) (dc_schema d)) tds, dc_body d with
+           match find (fun t => str_eqb (d_name t) (od_schema d)) tds, od_body d with
            | Some t, Some body =>
                match d_kind t with
                | KInterface =>
-                   let local n := match find (fun d' => str_eqb (dc_schema d') n) decls with Some d' => dc_local d' | None => n end in
+                   let local n := match find (fun d' => str_eqb (od_schema d') n) decls with Some d' => od_local d' | None => n end in
                    let impl := map (fun o => local (d_name o)) (filter (implements (d_name t)) tds) in
-                   if N.eqb (dc_section d) 4 then true
+                   if N.eqb (od_section d) 4 then true
                    else match impl with
                         | [] => str_eqb body (s "never")
                         | _ => same_set (split_bar body []) impl
